@@ -96,12 +96,21 @@ def elementary(rng, kinds=None):
         return k, [c(), c(), r()]
     if k in ('cx', 'cy', 'cz'):
         return k, [r()]
+    def apex(mn):
+        # general apex, or an apex on the cone's own axis (incl. the origin): the card then says the same as kx / ky / kz
+        a = [c(), c(), c()]
+        if rng.random() < 0.3:
+            ax = 'xyz'.index(mn[2])
+            a = [v if i == ax else 0.0 for i, v in enumerate(a)]
+            if rng.random() < 0.3:
+                a = [0.0, 0.0, 0.0]
+        return a
     if k in ('k/x', 'k/y', 'k/z'):
-        return k, [c(), c(), c(), t2()]
+        return k, apex(k) + [t2()]
     if k in ('kx', 'ky', 'kz'):
         return k, [c(), t2()]
     if k in ('k/x1', 'k/y1', 'k/z1'):
-        return k[:3], [c(), c(), c(), t2(), rng.choice([1.0, -1.0])]
+        return k[:3], apex(k) + [t2(), rng.choice([1.0, -1.0])]
     if k in ('kx1', 'ky1', 'kz1'):
         return k[:2], [c(), t2(), rng.choice([1.0, -1.0])]
     if k == 'sq':
@@ -255,7 +264,8 @@ def matmul(a, b):
 
 
 def random_rotation(rng, cls=None):
-    """B matrix (row-major) of a proper rotation; classes: id, perm (signed permutation), pyth, generic"""
+    """B matrix (row-major) of a proper rotation; classes: id, perm (signed permutation), pyth, generic; on request
+    (cls='mirror') an improper orthogonal matrix"""
     cls = cls or rng.choice(['id', 'perm', 'perm', 'pyth', 'generic'])
     if cls == 'id':
         return list(map(float, D.IDENT)), cls
@@ -270,6 +280,12 @@ def random_rotation(rng, cls=None):
             det = (m[0] * (m[4] * m[8] - m[5] * m[7]) - m[1] * (m[3] * m[8] - m[5] * m[6]) + m[2] * (m[3] * m[7] - m[4] * m[6]))
             if det > 0:
                 return m, cls
+    if cls == 'mirror':
+        # an orthogonal matrix of determinant -1 (left-handed auxiliary frame): one axis of a proper rotation flipped.
+        # Only ever written with all nine entries.
+        base, _ = random_rotation(rng, rng.choice(['id', 'perm', 'pyth', 'generic']))
+        k = rng.randrange(3)
+        return [(-x if i // 3 == k else x) + 0.0 for i, x in enumerate(base)], cls
     if cls == 'pyth':
         c, s = rng.choice([(0.6, 0.8), (0.8, 0.6), (-0.6, 0.8), (0.28, 0.96), (0.0, 1.0)])
         return [float(x) for x in rot_axis(rng.randrange(3), c, s)], cls
